@@ -13,7 +13,9 @@ import z3
 from psvc.contract import Contract, Clause, register, T, And, Or, Not, Implies, If, asserted, assertions_of
 from psvc import spec
 
-OPERANDS = ("expr", "single", "multi", "nested")
+# operand kinds: a raw expression, a constraint with one assertion, one with several, and connectives used as
+# operands (nesting): a conjunction, a negation, a disjunction, an implication
+OPERANDS = ("expr", "single", "multi", "nested", "neg", "disj", "imp")
 
 
 def build_world(ps, P):
@@ -47,6 +49,20 @@ def make_operand(ps, P, kind, idx, t1, t2, w):
         ma = And(*assertions_of(a))
         c = ps.And(list_of_constraints=[a, b])
         return c, And(ma, b)
+    if kind == "neg":
+        a = ps.TaskStartAt(task=(t2 if idx % 2 else t1), value=v)
+        ma = And(*assertions_of(a))
+        return ps.Not(constraint=a), Not(ma)
+    if kind == "disj":
+        a = ps.TaskEndBefore(task=t1, value=v, kind="strict")
+        b = t2._start >= T(v)
+        ma = And(*assertions_of(a))
+        return ps.Or(list_of_constraints=[a, b]), Or(ma, b)
+    if kind == "imp":
+        a = ps.TaskStartAfter(task=t2, value=v)
+        ma = And(*assertions_of(a))
+        cond = t1._start >= T(v)
+        return ps.Implies(condition=cond, list_of_constraints=[a]), Implies(cond, ma)
     raise ValueError(kind)
 
 
